@@ -30,11 +30,22 @@ class FloCheck(core.Check):
         self._cov = {}
         self.totals = {}
         self.cond_seen = [0, 0]
+        self.flag_counts = {}            # ghost flags / wf of the model runs (from the driver's `G` record)
 
     def requests(self, case):
         return [floeng.encode(case["prog"])]
 
+    def note_flags(self, reply):
+        for l in reply.split("|"):
+            if l.startswith("G "):
+                self.flag_counts["runs"] = self.flag_counts.get("runs", 0) + 1
+                for t in l.split(" ")[1:]:
+                    k, _, v = t.partition("=")
+                    if v == "1":
+                        self.flag_counts[k] = self.flag_counts.get(k, 0) + 1
+
     def model_post(self, case, replies):
+        self.note_flags(replies[0])
         return floeng.model_lines(replies[0], self.WANT)
 
     def impl(self, case):
@@ -74,7 +85,8 @@ class FloCheck(core.Check):
 
     def extra_evidence(self):
         c = self.cond_seen
-        return {"programs_with_feature": dict(sorted(self.totals.items())),
+        return {"model_runs_with_ghost_flag_or_wf": dict(sorted(self.flag_counts.items())),
+                "programs_with_feature": dict(sorted(self.totals.items())),
                 "conditions_evaluated": c[0],
                 "conditions_seen_both_true_and_false": c[1],
                 "conditions_both_fraction": round(c[1] / c[0], 3) if c[0] else None}
